@@ -611,6 +611,9 @@ func runC04(ctx *Ctx) {
 		if ctx.Want(n + 60 + k) {
 			c06Unfamiliar(ctx, n+60+k, k)
 		}
+		if ctx.Want(n + 64 + k) {
+			c04Leftovers(ctx, n+64+k, k)
+		}
 	}
 	for c := 0; c < ctx.N(6, 60); c++ {
 		if ctx.Want(n + 100 + c) {
